@@ -1,7 +1,5 @@
 // ---- additional model for the catch clause (catchd unit) ------------------------------------------------------------------------------
-#[derive(Clone, Copy, PartialEq, Eq, Structural)]
-pub enum SymbolState { LocalInitialized, LocalCaptured, ModuleInitialized, GlobalInitialized, Uninitialized }
-pub open spec fn state_code(s: SymbolState) -> nat { match s { SymbolState::LocalInitialized => 0, SymbolState::LocalCaptured => 1, SymbolState::ModuleInitialized => 2, SymbolState::GlobalInitialized => 3, SymbolState::Uninitialized => 4 } }
+pub open spec fn state_code(s: SymbolState) -> nat { match s { SymbolState::LocalInitialized => 0, SymbolState::LocalCaptured => 1, SymbolState::ModuleInitialized => 2, SymbolState::GlobalInitialized => 3, SymbolState::Uninitialized => 4, SymbolState::AlreadyInitialized => 5 } }
 pub uninterp spec fn default_error_token() -> int;
 #[verifier::external_body] pub fn verif_default_error_token() -> (r: Token) ensures r.id == default_error_token() { unimplemented!() }
 /// the state the resolver recorded for a name (LocalCaptured when a closure captures it: its box must be filled at definition)
